@@ -169,14 +169,34 @@ def tie(ctx):
         hx = [t.split(" ")[1] for t in trees if t.startswith("TREE ")]
         fixed = vlib.model(exe, ["fixed"], hx)
         spec = vlib.model(exe, ["spec"], hx)
+        nsfirst = vlib.model(exe, ["nsfirst"], hx)
         pinned = vlib.model(exe, ["resolve"], hx)
-        for a, b, c in zip(fixed, spec, pinned):
+        hyp = vlib.model(exe, ["hyp"], hx)
+        for a, b, c, d, h in zip(fixed, spec, pinned, nsfirst, hyp):
+            f = dict(x.split("=") for x in h.split(" ")[1:]) if h.startswith("HYP ") else {}
+            flags = f.get("flags", "????")
+            stats["flags of this run (if/case/else restore, x.f scope-first): " + flags] += 1
+            wf, nns = f.get("wf") == "t", f.get("no_ns_shadow") == "t"
+            stats["hypothesis wf_ast holds"] += wf
+            stats["hypothesis no_ns_shadow holds"] += nns
+            stats["hypotheses of C09_resolve_refines_modulo_ns hold (wf_ast and no_ns_shadow)"] += wf and nns
             if a != b:
                 mism.append({"case": "spec-vs-fixed-resolver", "fixed": a[:300], "spec": b[:300]})
             else:
                 stats["spec == resolver with all four flags on"] += 1
             if c != b:
-                stats["pinned resolver differs from spec (scope leak / namespace-before-local visible)"] += 1
+                stats["resolver with this run's flags differs from the documented spec"] += 1
+            # the theorems that apply to this run's flags, re-checked on the input
+            if flags[:3] == "ttt" and wf:
+                want = b if flags[3] == "t" else d
+                if c != want:
+                    mism.append({"case": "C09_resolve_refines_nsfirst fails on a tie input", "pinned": c[:300],
+                                 "spec_g": want[:300]})
+                if nns and c != b:
+                    mism.append({"case": "C09_resolve_refines_modulo_ns fails on a tie input", "pinned": c[:300],
+                                 "spec": b[:300]})
+            if nns and d != b:
+                mism.append({"case": "C09_nsfirst_is_lexical fails on a tie input", "nsfirst": d[:300], "spec": b[:300]})
     return {"name": "resolver", "ok": not mism, "mismatches": mism[:10], "evaluations": n,
             "distinct_nontrivial": nontriv,
             "rule": "every /repo/tests/**/*.sy that parses (std bundled), corpus/c09|c11|c12, generated programs under "
@@ -286,6 +306,32 @@ def run_oracle(ctx, items):
     return out, lines, spans
 
 
+def flags_case():
+    """which case of the regenerated flags this run is in, and which theorems of Props/C09.v speak about the
+    code in that case"""
+    import re
+    try:
+        t = open(os.path.join(vlib.COQ, "Gen", "GenResolve.v"), encoding="utf-8").read()
+        m = re.search(r"gen_rflags : rflags := mkFlags (\w+) (\w+) (\w+) (\w+)\.", t)
+        fl = [x == "true" for x in m.groups()]
+    except Exception as e:
+        return {"flags": "unknown: %s" % e}
+    names = ["if_truncates", "case_truncates", "else_truncates", "access_local_first"]
+    d = {"flags": dict(zip(names, fl))}
+    if all(fl):
+        d["case"] = ("all four on: C09_resolve_refines applies -- the code is the documented specification on every "
+                     "well-formed AST")
+    elif all(fl[:3]):
+        d["case"] = ("the three restore flags on, `x.f` still namespace-first: C09_resolve_refines_nsfirst (code = "
+                     "specification with that quirk, all well-formed ASTs) and C09_resolve_refines_modulo_ns (code = "
+                     "documented specification on well-formed ASTs satisfying no_ns_shadow) apply; "
+                     "C09_resolve_refines_refuted (witness w_nsfield) shows the remaining difference")
+    else:
+        d["case"] = ("some scope is not restored: only C09_resolve_refines_refuted and C09_alpha (for the implemented "
+                     "discipline) speak about the code")
+    return d
+
+
 def always(ctx):
     n = 250 if ctx.tier == "quick" else 6000
     items = oracle_stream(ctx, n, "c09-oracle")
@@ -307,7 +353,8 @@ def always(ctx):
         ctx.brk("oracle:" + (c or "unexplained"),
                 "%d of %d oracle evaluations violate C09 and are not covered by an open known finding; first: %s (class %s)"
                 % (len(unexplained), len(items), v, c))
-    return {"oracle_evaluations": len(items), "oracle_distribution": dict(dist),
+    return {"flags_case": flags_case(),
+            "oracle_evaluations": len(items), "oracle_distribution": dict(dist),
             "oracle_rule": "real compiler, std bundled: (a) byte equality of the emitted Lua for the maximally-distinct "
                            "naming vs a maximal-shadowing naming of the same generated program (also a shadowing naming "
                            "constrained to be immune to the recorded scope leak); (b) one planted use of a local "
